@@ -71,11 +71,11 @@ def run_method(ctx, F, path, M, box, env, rid, method):
                 uenv[i] = ('int', 0, 255)
         obs, why = unroll.wrap_free(b, _flow_of(b).cfg, uenv, NMAX) if uenv else (None, 'no byte-slice parameter')
         if obs is not None:
-            bad = sorted([o for o in obs if not o.ok], key=lambda o: (o.line or 0, o.what))
+            bad = sorted([o for o in obs if o.ok is False], key=lambda o: (o.line or 0, o.what))
             for i, o in enumerate(bad):
                 ctx.bad('C17.O1', '%s:wrap-free:%s#%d' % (method, o.what, i + 1),
                         '%s: %s is not wrap-free for inputs of up to %d bytes: %s' % (method, o.what, NMAX, o.detail), 'src/checksum.rs:%s (%s)' % (o.line, method))
-            ctx.undecided(rid, '%s %s (interval fallback: %d arithmetic site(s) examined, %d may wrap; equality with the definition not decided)' % (path, e, len(obs), len(bad)))
+            ctx.undecided(rid, '%s %s (interval fallback: %d arithmetic site(s) examined, %d wrap, %d on unmodelled values; equality with the definition not decided)' % (path, e, len(obs), len(bad), len([o for o in obs if o.ok is None])))
         else:
             ctx.undecided(rid, '%s %s; fallback: %s' % (path, e, why))
         return None
